@@ -104,6 +104,8 @@ class PyLower:
         if isinstance(e, ast.Call):
             return self.call(e, env, depth)
         if isinstance(e, ast.Subscript):
+            if src_of(e) in self.names:
+                return self.name(src_of(e))
             base = src_of(e.value)
             idx = self.expr(e.slice, env, depth)
             return Poly.atom(("load", self.names.get(base, base), idx))
@@ -283,7 +285,9 @@ class PyLower:
             elif isinstance(st, ast.AugAssign):
                 opname = {ast.Add: "+=", ast.Sub: "-=", ast.BitOr: "|=", ast.BitAnd: "&=", ast.LShift: "<<=", ast.RShift: ">>="}.get(type(st.op), "?=")
                 v = self.expr(st.value, env)
-                if isinstance(st.target, ast.Subscript):
+                if isinstance(st.target, ast.Subscript) and src_of(st.target) in self.names:
+                    effects.append(Effect("attr", self.names[src_of(st.target)], [v], opname, list(guard), st))
+                elif isinstance(st.target, ast.Subscript):
                     base = src_of(st.target.value)
                     effects.append(Effect("store", self.names.get(base, base), [self.expr(st.target.slice, env), v], opname, list(guard), st))
                 elif isinstance(st.target, ast.Attribute):
